@@ -279,10 +279,21 @@ def kernel_random_body(ctx, case):
                target != _exact_rule_integral(x, y, case["rule"]))
 
 
+def siblings_body(ctx, case):
+    from twv.props.c01 import _Quiet
+    q = _Quiet(ctx)
+    profile_body(q, case["a"])
+    profile_body(q, case["b"])
+    profile_body(q, case["a"])
+    ctx.record(case, matchgen.classes(case["a"]) + ["moved" if case["moved"] else "identical-sibling"], case["moved"])
+
+
 SUBCHECKS = [
     Sub("profile", "hyp", profile_body, strategy=lambda ctx: matchgen.match_case(ctx), quick=1500, thorough=30000,
         clause="outside span bitwise unchanged; fixed points unchanged to rounding; interior displacement one-signed "
                "and proportional to 1-(2|x-c|/width)^alpha"),
+    Sub("siblings", "hyp", siblings_body, strategy=matchgen.sibling_pair, quick=400, thorough=8000,
+        clause="fixed points and profile of one matching do not depend on matchings done before"),
     Sub("idempotence", "hyp", idempotence_body, strategy=lambda ctx: matchgen.match_case(ctx), quick=500,
         thorough=10000, clause="matching an already matched function changes nothing"),
     Sub("linearity", "hyp", linearity_body, strategy=lambda ctx: matchgen.match_case(ctx), quick=400, thorough=8000,
